@@ -2,8 +2,11 @@
 //! `--cfg clockbound_verif`) on the cases read from stdin, one per line, and prints one canonical
 //! result line per case in the same format as the model driver (ocaml/driver.ml).
 
+mod bound;
+mod client;
 mod gen;
 mod util;
+mod vclock;
 
 use std::io::{BufRead, Write};
 
@@ -21,6 +24,8 @@ fn main() {
 
 /// Generic mode: each line is `<tag> <ints...>`.
 fn lines() {
+    // panics are outcomes here, not noise
+    std::panic::set_hook(Box::new(|_| {}));
     let stdin = std::io::stdin();
     let stdout = std::io::stdout();
     let mut out = std::io::BufWriter::new(stdout.lock());
@@ -33,6 +38,9 @@ fn lines() {
         }
         let res = match toks[0] {
             "gen" => gen::run(&mut ctx, &toks[1..]),
+            "cba" => client::run(&mut ctx, &toks[1..]),
+            "bnd" => bound::run_bnd(&toks[1..]),
+            "cls" => bound::run_cls(&toks[1..]),
             t => {
                 eprintln!("unknown tag {}", t);
                 std::process::exit(2);
@@ -41,10 +49,13 @@ fn lines() {
         writeln!(out, "{}", res).unwrap();
     }
     out.flush().unwrap();
+    drop(ctx);
+    util::cleanup_scratch();
 }
 
 /// State shared by the cases of one run (lazily created scratch segment etc.).
 #[derive(Default)]
 pub struct Ctx {
     pub gen: Option<gen::GenCtx>,
+    pub client: Option<client::ClientCtx>,
 }
